@@ -117,8 +117,9 @@ def evaluate(ctx, T, v, dt=None, cdt=None):
     # (3) node side import
     try:
         back = rm.canon(dt.validate(dt.import_value(j)))
-        if back != civ:
-            ctx.finding(f'roundtrip:node:{T["k"]}:changed', case, f'{civ!r} -> {text} -> {back!r}')
+        # equal to what validate gave, and (reference model, independent of frappy's conversions) still denoting the member v
+        if back != civ or rm.denotes(T, v, None, back, 'drv'):
+            ctx.finding(f'roundtrip:node:{T["k"]}:changed', case, f'{v!r} -> {civ!r} -> {text} -> {back!r} {rm.denotes(T, v, None, back, "drv")[:1]!r}')
         else:
             ctx.ok('roundtrip-node')
     except Exception as e:  # noqa
@@ -128,8 +129,8 @@ def evaluate(ctx, T, v, dt=None, cdt=None):
         if cdt is None:
             cdt = get_datatype(json.loads(json.dumps(dt.export_datatype())), 'p')
         back = rm.canon(cdt.validate(cdt.import_value(j)))
-        if back != civ:
-            ctx.finding(f'roundtrip:client:{T["k"]}:changed', case, f'{civ!r} -> {text} -> {back!r}')
+        if back != civ or rm.denotes(T, v, None, back, 'drv'):
+            ctx.finding(f'roundtrip:client:{T["k"]}:changed', case, f'{v!r} -> {civ!r} -> {text} -> {back!r} {rm.denotes(T, v, None, back, "drv")[:1]!r}')
         else:
             ctx.ok('roundtrip-client')
     except Exception as e:  # noqa
